@@ -65,8 +65,7 @@ def schema_case(draw):
 
 
 def family(desc: str) -> str:
-    if re.fullmatch(r"Value not matching the '[\w-]+' format", desc):
-        return desc  # the format name is part of the root cause
+    desc = re.sub(r"the '([\w-]+)' format", r"the <\1> format", desc)  # the format name is part of the root cause
     d = re.sub(r"'[^']*'", "'_'", desc)
     d = re.sub(r"`[^`]*`", "`_`", d)
     d = re.sub(r"-?\d+(\.\d+)?(e[-+]?\d+)?", "N", d)
@@ -206,7 +205,7 @@ def classify(direction, fam, schema, value, root, dialect, loc) -> str:
         which = "pattern-negation" if "pattern" in fam else "min-length-negation" if "smaller" in fam.lower() else "max-length-negation" if "larger" in fam.lower() else "length"
         return "negative-valid:pattern+length-through-search-semantics:" + which
     if "format" in fam:
-        m = re.search(r"the '([\w-]+)' format", fam)
+        m = re.search(r"the <([\w-]+)> format", fam)
         return "negative-valid:format-negation-is-valid:" + (m.group(1) if m else "?")
     if "zero-bound" in feats:
         return "negative-valid:bound-equal-to-zero-treated-as-absent"
